@@ -760,12 +760,21 @@ def restart_preserves_settings(ctx, rid, what=""):
     cfg = fl.cfg
     # the restart test
     rt = None
+    fresh_branch = None
     for n in walk_local(f):
-        if isinstance(n, ast.If) and isinstance(n.test, ast.Compare) and isinstance(n.test.left, ast.Constant) and n.test.left.value == "current" and isinstance(n.test.ops[0], ast.In):
+        if not isinstance(n, ast.If):
+            continue
+        t, neg = n.test, False
+        while isinstance(t, ast.UnaryOp) and isinstance(t.op, ast.Not):
+            t, neg = t.operand, not neg
+        if isinstance(t, ast.Compare) and len(t.ops) == 1 and isinstance(t.left, ast.Constant) and t.left.value == "current" and isinstance(t.ops[0], (ast.In, ast.NotIn)):
+            if isinstance(t.ops[0], ast.NotIn):
+                neg = not neg
             rt = n
+            fresh_branch = n.body if neg else n.orelse  # the branch taken when there is no [current] section
     if rt is None:
-        raise AnalysisError(f"{rid}: `if \"current\" in config` not found in setup_config")
-    fresh = {id(x) for st in rt.orelse for x in ast.walk(st)}
+        raise AnalysisError(f"{rid}: the test for a [current] section (`\"current\" in config`) was not found in setup_config")
+    fresh = {id(x) for st in fresh_branch for x in ast.walk(st)}
     env = _cfg_env(f)
     cnt = 0
     for st in walk_local(f):
